@@ -11,6 +11,7 @@ for f in sorted(glob.glob(os.path.join(ROOT, "props", "c[0-9][0-9]_*.py"))):
 ENGINES = {
     "product": ("product explorer", "mc/runner.py", "complete Cartesian product over small sharp alphabets, every case executed on the real implementation against a reference model / differential oracle"),
     "bfs": ("history explorer (BFS)", "mc/bfs.py", "explicit-state breadth-first search whose transitions call the real setters / context managers; states canonicalised and deduplicated; reference model replayed in lock-step"),
+    "preempt": ("preemption explorer", "mc/preempt.py", "runs the real dask graph up to a point with two ready abTEM tasks, parks one of them at its k-th call into abTEM code (sys.settrace) while the other runs to completion, for every k (bound: one preemption, two tasks, call granularity)"),
     "sched": ("controlled dask scheduler", "mc/dasksched.py", "owns the execution order of the real dask task graph: enumerates linear extensions (all, or all within a deviation bound) with a per-task mutation monitor"),
 }
 checks, na, serves = [], [], {k: [] for k in ENGINES}
